@@ -242,7 +242,7 @@ def run_all(scn, ref, EoN, modes=("sep", "joint", "arr", "perc", "fast", "gin"))
             if leaf.error is not None:
                 probs.append((nm, "exception:%s" % type(leaf.error).__name__, "%r" % (leaf.error,)))
             else:
-                got_seed = [u for u in nodes if leaf.result[0][u][1] and leaf.result[0][u][1][0] == "I"]
+                got_seed = sorted(v for (t_, u_, v) in leaf.result[1] if u_ is None)      # the source-less entries name the index case
                 if got_seed == I0:       # the scripted choice did fall on the scenario's seed
                     for k, d in compare_full(scn, ref, leaf.result[0], leaf.result[1]):
                         probs.append((nm, k, d))
